@@ -253,10 +253,13 @@ def selStart (s : St) (it : Option (List Nat)) : Int × Int × Int :=
 def selOrig (i : Option (List Nat)) (orig cell : Rat) : Rat :=
   match i with | some i => orig + ((i.headD 0 : Nat) : Rat) * cell | none => orig
 
+/-- `_copywith(props=True, dimensions=False)` followed by the new dimension lengths -/
+def sliceShell (s : St) (it il ir ic ip : Option (List Nat)) : St :=
+  { shell s with nT := newLen s.nT it, nL := newLen s.nL il, nR := newLen s.nR ir,
+                 nC := newLen s.nC ic, nP := newLen s.nP ip }
+
 def slicePre (s : St) (it il ir ic ip : Option (List Nat)) : St :=
-  let s0 := { shell s with nT := newLen s.nT it, nL := newLen s.nL il, nR := newLen s.nR ir,
-                           nC := newLen s.nC ic, nP := newLen s.nP ip }
-  let s2 := copyVarsInto s0 s (selRows it)
+  let s2 := copyVarsInto (sliceShell s it il ir ic ip) s (selRows it)
   setGeo s2 (selLevels il s.vglvls) (selOrig ic s.xorig s.xcell) (selOrig ir s.yorig s.ycell)
     (selStart s it).1 (selStart s it).2.1 (selStart s it).2.2
 
